@@ -96,7 +96,7 @@ func semPost(cr *caseRun) {
 				if fd.SrcGetter && !tg.Getter {
 					continue
 				}
-				f.SlicePairs = append(f.SlicePairs, sem.SlicePair{Dst: fd.Name, Src: fd.SrcName, Getter: fd.SrcGetter, Named: fd.Type == "IntList" || fd.Pair.Src == "IntList"})
+				f.SlicePairs = append(f.SlicePairs, sem.SlicePair{Dst: fd.Name, Src: fd.SrcName, Getter: fd.SrcGetter, Named: fd.Type == "IntList" || fd.Pair.Src == "IntList" || fd.Type == "StrList2" || fd.Pair.Src == "StrList"})
 			}
 			for _, e := range gf.Entries {
 				f.Entries = append(f.Entries, sem.Entry{Kind: e.Kind, Path: e.Path, RHS: e.RHS, Err: e.Err, Raw: e.Raw})
